@@ -70,6 +70,7 @@ type vWLine struct {
 	WireLen     int    `json:"wireLen"`    // length of the (first) frame
 	Sealed      bool   `json:"sealed"`     // every sender buffer opens under the sender's primary key with its label as AAD
 	Canary      bool   `json:"canary"`     // the payload canary is visible in a sender buffer
+	Burst       bool   `json:"burst"`      // the line of the burst phase: three different messages ingested while the application is busy
 	SentDigest  string `json:"sentDigest"` // digest of what the sender was asked to send
 	Acted       bool   `json:"acted"`      // the receiver did anything (membership step, delegate call, ack/state reply)
 	Delivered   string `json:"delivered"`  // digest of what reached the receiver's handler / delegate
@@ -772,8 +773,61 @@ func vWRun(t *testing.T, s *vSink, id int, c vWCase) (l vWLine) {
 	if l.NodeOps > 0 || len(msgs) > 0 || len(states) > 0 || len(replies) > 0 || l.Reply == "ack" || l.Reply == "state" {
 		l.Acted = true
 	}
+	// Burst phase (a user packet that arrived intact): three further, different messages are ingested while the
+	// application is still busy with the first of them - they wait in the hand-off queue, which holds what the listener
+	// decoded, so whatever buffer the listener decoded into must not be reused meanwhile.  Recorded as a line of its own.
+	if c.Path == "packet" && c.Msg == "user" && c.Attack == "none" && c.Compatible && l.Acted && l.Delivered == l.SentDigest {
+		var sentAll, wires [][]byte
+		nw.partition(map[string]int{A.tr.name: 1, B.tr.name: 2})
+		for k := 0; k < 3; k++ {
+			p := append([]byte(fmt.Sprintf("burst-%d:", k)), bytes.Repeat([]byte{byte('a' + k), byte('A' + k)}, 150+17*k)...)
+			mu.Lock()
+			frames = nil
+			mu.Unlock()
+			_ = A.m.SendBestEffort(nodeB, p)
+			synctest.Wait()
+			mu.Lock()
+			if len(frames) > 0 {
+				wires = append(wires, frames[0])
+				sentAll = append(sentAll, p)
+			}
+			mu.Unlock()
+		}
+		gate := make(chan struct{})
+		B.d.mu.Lock()
+		n0 := len(B.d.msgs)
+		B.d.gate = gate
+		B.d.mu.Unlock()
+		nw.partition(map[string]int{})
+		for _, wr := range wires {
+			B.tr.packetCh <- &Packet{Buf: wr, From: &net.UDPAddr{IP: ipA, Port: 7946}, Timestamp: time.Now()}
+			time.Sleep(5 * time.Millisecond)
+			synctest.Wait()
+		}
+		B.d.mu.Lock()
+		B.d.gate = nil
+		B.d.mu.Unlock()
+		close(gate)
+		time.Sleep(50 * time.Millisecond)
+		synctest.Wait()
+		B.d.mu.Lock()
+		got := append([][]byte(nil), B.d.msgs[n0:]...)
+		B.d.mu.Unlock()
+		// (the hand-off queue is not first-in first-out: the messages are compared as a set)
+		sort.Slice(sentAll, func(i, j int) bool { return bytes.Compare(sentAll[i], sentAll[j]) < 0 })
+		sort.Slice(got, func(i, j int) bool { return bytes.Compare(got[i], got[j]) < 0 })
+		lb := l
+		lb.Burst = true
+		lb.SentDigest = vDigest(sentAll...)
+		lb.Delivered = vDigest(got...)
+		lb.Acted = len(got) > 0
+		vWExtra = append(vWExtra, lb)
+	}
 	return l
 }
+
+// lines of burst phases, written by the caller after the line of the case
+var vWExtra []vWLine
 
 // vWCampaign fires every truncation and single-byte mutations of a genuine frame at the receiver
 func vWCampaign(t *testing.T, s *vSink, l *vWLine, c vWCase, nw *vNet, B *vWNode, ipA net.IP, frame []byte, all bool) {
@@ -1239,6 +1293,12 @@ func TestVerifWireCases(t *testing.T) {
 					b, _ := json.Marshal(l)
 					w.Write(b)
 					w.WriteByte('\n')
+					for _, x := range vWExtra {
+						b, _ := json.Marshal(x)
+						w.Write(b)
+						w.WriteByte('\n')
+					}
+					vWExtra = nil
 					if p >= 5000 || (p == pads[0] && vWTiny(ids[i]) && c.Compatible && c.Attack == "none") {
 						// the large and the smallest sizes also with the sender's compression setting flipped (an uncompressed,
 						// unencrypted stream is read from the connection in pieces, a compressed or sealed one from memory;
@@ -1249,6 +1309,12 @@ func TestVerifWireCases(t *testing.T) {
 						b, _ := json.Marshal(l)
 						w.Write(b)
 						w.WriteByte('\n')
+						for _, x := range vWExtra {
+							b, _ := json.Marshal(x)
+							w.Write(b)
+							w.WriteByte('\n')
+						}
+						vWExtra = nil
 					}
 				}
 				w.Flush()
